@@ -530,7 +530,8 @@ pub fn libout(case: &J, srcs: &[Src]) -> J {
     }
     let functions = Functions::stdlib();
     let config = ExecutionConfig::new(&functions, &globals).lazy(case["lazy"].as_bool().unwrap_or(false));
-    let has_syntax_errors = !tree_sitter_graph::parse_error::ParseError::all(&src.tree).is_empty();
+    // raw tree-sitter, not the library's own error discovery: the property speaks of the source, not of what ParseError finds
+    let has_syntax_errors = src.tree.root_node().has_error();
     match file.execute(&src.tree, &src.text, &config, &NoCancellation) {
         Ok(g) => json!({"status": "ok", "pretty": format!("{}", g.pretty_print()), "json": serde_json::to_value(&g).unwrap(),
                         "syntax_errors": has_syntax_errors}),
